@@ -7,6 +7,7 @@ import (
 	"math/rand"
 	"os"
 	"path/filepath"
+	"strings"
 
 	"verif/harness/formats"
 	"verif/harness/run"
@@ -83,18 +84,26 @@ func runExtraOps(em *emitter, dir, wdir string, c Case, conc *world.Conc, cseed 
 		em.emit(listEvent{Ev: "List", Opts: listOptsJSON{Exposure: true}, Obs: obs})
 	}
 	if ops["focus"] {
-		cands := []string{"nosuch", "ingress-controller"}
+		cands := []string{"nosuch", "ingress-controller", "a", "/"}
 		for i := range w.Workloads {
 			wl := &w.Workloads[i]
 			cands = append(cands, wl.Name, wl.NS+"/"+wl.Name)
 			if i == 0 {
 				cands = append(cands, "nsx/"+wl.Name, wl.NS+"/nosuch")
 			}
+			if i == (c.ID % len(w.Workloads)) {
+				// near misses of an existing name: none of them names a workload (unless one happens to exist)
+				cands = append(cands, wl.NS+"-"+wl.Name, wl.NS+"."+wl.Name, wl.Name+"x", "x"+wl.Name, strings.ToUpper(wl.Name),
+					wl.NS+"/"+wl.Name+"x", wl.NS+"/x"+wl.Name, wl.NS+"//"+wl.Name, wl.Name+"/"+wl.NS)
+				if len(wl.Name) > 1 {
+					cands = append(cands, wl.Name[:len(wl.Name)-1], wl.Name[1:])
+				}
+			}
 		}
 		seen := map[string]bool{}
 		n := 0
 		for k, W := range cands {
-			if seen[W] || (n >= 7 && (k+c.ID)%3 != 0) {
+			if seen[W] || (n >= 9 && (k+c.ID)%3 != 0) {
 				continue
 			}
 			seen[W] = true
